@@ -30,6 +30,7 @@ type c13X struct {
 	Final         []c13Expect // expected final replies (nil if no final response is due)
 	Expect        []string    // expected codes/classes of all replies after the RCPTs up to (excluding) the finals, e.g. "354", "250", "E" (error, single)
 	After         []string    // expected after the finals
+	MidRefused    int         // a BDAT with a bad LAST token, refused with its payload discarded, after this many RCPT commands of the judged transaction (-1 = none): the envelope goes on
 	Prelude       int         // an earlier transaction on the same connection, with other recipients: 0 none, 1 RSET after the recipients, 2 first BDAT refused for its size, 3 BDAT with a bad LAST token then RSET, 4 completed with DATA, 5 completed with BDAT LAST, 6 a chunk then RSET with the aborted delivery panicking late
 	Stall         bool        // DATA: the client falls silent inside the message until ReadTimeout strikes; it keeps listening
 	Pre           int
@@ -299,8 +300,19 @@ func genC13(t *Tape, tier string) *Scenario {
 		}
 	}
 	steps = append(steps, Step{Kind: kMail, Data: line("MAIL FROM:<ok-s@a.example>"), Wait: 1})
-	for _, r := range x.Rcpts {
+	x.MidRefused = -1
+	if t.Chance(1, 5) {
+		x.MidRefused = 1 + t.Intn(len(x.Rcpts))
+	}
+	for i, r := range x.Rcpts {
 		steps = append(steps, Step{Kind: kRcpt, Data: line("RCPT TO:<%s>", r), Wait: 1})
+		if i+1 == x.MidRefused {
+			// refused for its syntax (or for want of an accepted recipient): one reply, the
+			// payload is discarded, and the transaction is the same as before
+			steps = append(steps, Step{Kind: kBdat, Data: []byte([]string{"BDAT 10 LAS\r\n", "BDAT 10 FIRST\r\n", "BDAT 10 LASTLAST\r\n"}[t.Intn(3)]), Glue: true},
+				Step{Kind: kPayload, Data: mkMessage(10), Wait: 1})
+			x.Pre++
+		}
 	}
 	x.Pre += 1 + len(x.Rcpts)
 	x.Final = final
@@ -378,6 +390,9 @@ func checkC13(sc *Scenario, h *History) []Violation {
 	x := sc.X.(*c13X)
 	ch := h.Conns[0]
 	wit := fmt.Sprintf("rcpts=%v bdat=%v chunks=%v flavor=%d panic=%v earlyfail=%d/%d ooc=%v prelude=%d", x.Rcpts, x.ViaBdat, x.Chunks, x.Flavor, x.Panic, x.EarlyFail, x.FailChunk, x.OutOfContract, x.Prelude)
+	if x.MidRefused >= 0 {
+		wit += fmt.Sprintf(" refused-bdat-after-rcpt=%d", x.MidRefused)
+	}
 	if h.BubblePanic != "" && h.Leaked == 0 {
 		out = append(out, Violation{Rule: "C13.deadlock", Detail: h.BubblePanic, Witness: wit})
 	}
@@ -587,6 +602,9 @@ func classifyC13(sc *Scenario, h *History, st *Stats) string {
 	if x.Prelude > 0 {
 		st.Probes["earlier_transaction_"+[]string{"", "ended_by_RSET", "BDAT_refused_for_size", "BDAT_malformed_then_RSET", "completed_with_DATA", "completed_with_BDAT", "aborted_delivery_panics_late"}[x.Prelude]]++
 	}
+	if x.MidRefused >= 0 {
+		st.Probes["malformed_BDAT_refused_between_the_recipients"]++
+	}
 	if x.EarlyFail >= 0 {
 		st.Probes["backend_fails_early"]++
 		if x.ViaBdat && x.FailChunk == len(x.Chunks)-1 {
@@ -610,7 +628,7 @@ func classifyC13(sc *Scenario, h *History, st *Stats) string {
 func init() {
 	register(&Property{
 		ID: "C13", Level: "exploration",
-		Rule:     "LMTP server; 1-4 accepted recipients over two addresses (duplicates) with rejected RCPTs interleaved; per-recipient backend that sets a drawn subset of statuses in a drawn order before, after and after-a-park relative to consuming the message, returns nil / SMTPError / plain error, panics at one of three points, fails early after k octets, or breaks the contract (too many statuses, unknown recipient: judged for no-deadlock only); plain backend; DATA and BDAT in 1-4 chunks (LAST possibly empty); lock-step or pipelined. Expected final replies come from the occurrence rule (k-th status for an address belongs to its k-th occurrence, else the return value). Non-trivial: >= 2 recipients or any explicit status, panic or early failure; distinct by (recipient list, transfer, chunking, backend flavour, status calls, return kind, panic, early-failure point). An earlier transaction on the same connection with other recipients (systematic: none, RSET, first BDAT refused for size, malformed BDAT then RSET, completed with DATA, completed with BDAT).",
+		Rule:     "LMTP server; 1-4 accepted recipients over two addresses (duplicates) with rejected RCPTs interleaved; per-recipient backend that sets a drawn subset of statuses in a drawn order before, after and after-a-park relative to consuming the message, returns nil / SMTPError / plain error, panics at one of three points, fails early after k octets, or breaks the contract (too many statuses, unknown recipient: judged for no-deadlock only); plain backend; DATA and BDAT in 1-4 chunks (LAST possibly empty); lock-step or pipelined. Expected final replies come from the occurrence rule (k-th status for an address belongs to its k-th occurrence, else the return value). Non-trivial: >= 2 recipients or any explicit status, panic or early failure; distinct by (recipient list, transfer, chunking, backend flavour, status calls, return kind, panic, early-failure point). An earlier transaction on the same connection with other recipients (systematic: none, RSET, first BDAT refused for size, malformed BDAT then RSET, completed with DATA, completed with BDAT). In a fifth of the runs a BDAT command with a bad LAST token is refused, payload and all, somewhere between the RCPT commands of the judged transaction, which goes on as before.",
 		Gen:      genC13,
 		Check:    checkC13,
 		Classify: classifyC13,
@@ -634,7 +652,7 @@ func init() {
 		Real:        []string{"smtp.Server.Serve/handleConn", "smtp.Conn handleDataLMTP, handleBdat (LMTP), statusCollector, delivery goroutines, panic recovery", "io.Pipe", "net/textproto", "bufio"},
 		Stub:        []string{"net.Listener (SimListener)", "net.Conn (SimConn)", "Backend/LMTPSession/StatusCollector caller (SimBackend)", "clock (synctest)", "LMTP client (raw driver)"},
 		Assumptions: []string{"statuses a backend set explicitly before it panicked are honoured; the others must not be 2xx", "out-of-contract backends are judged only for no deadlock / no crash"},
-		Required:    []string{"backend_fails_early_during_LAST_chunk", "backend_returns_nil_early", "backend_panic_logged_to_slow_sink", "duplicate_recipient", "out_of_contract_backend", "rejected_rcpt_interleaved", "backend_panic", "earlier_transaction_BDAT_refused_for_size", "earlier_transaction_BDAT_malformed_then_RSET", "earlier_transaction_completed_with_BDAT", "read_timeout_inside_LMTP_DATA_peer_keeps_listening", "earlier_transaction_aborted_delivery_panics_late"},
+		Required:    []string{"backend_fails_early_during_LAST_chunk", "backend_returns_nil_early", "backend_panic_logged_to_slow_sink", "duplicate_recipient", "out_of_contract_backend", "rejected_rcpt_interleaved", "backend_panic", "earlier_transaction_BDAT_refused_for_size", "earlier_transaction_BDAT_malformed_then_RSET", "earlier_transaction_completed_with_BDAT", "read_timeout_inside_LMTP_DATA_peer_keeps_listening", "earlier_transaction_aborted_delivery_panics_late", "malformed_BDAT_refused_between_the_recipients"},
 		QuickRuns:   200000, ThoroughRuns: 4000000,
 	})
 }
